@@ -273,6 +273,7 @@ pub fn int_v<T: Into<i128>>(ty: crate::ast::IntTy, v: T) -> V {
 pub fn build_runtime() -> Runtime<roto::NoCtx> {
     use crate::ast::IntTy::*;
     let mut rt = Runtime::new();
+    rt.add_io_functions();
 
     let mut lib = roto::Library::new();
     scalar_io!(
